@@ -74,9 +74,18 @@ struct Strategy {
                     size_t off = s.u16() % pb.input.n, n0 = pb.input.n;
                     for (size_t k = 0; k < n0; k++) {
                         size_t q = (off + k) % n0;
-                        if (pb.input.p[q] == 0x14 && q + 1 < n0 && pb.input.p[q + 1] < 0x80 && q + 2 + pb.input.p[q + 1] <= n0) {
-                            name.assign(pb.input.p + q + 2, pb.input.p + q + 2 + pb.input.p[q + 1]);
+                        const uint8_t *d = pb.input.p;
+                        if (d[q] == 0x14 && q + 1 < n0 && d[q + 1] < 0x80 && q + 2 + d[q + 1] <= n0) {
+                            name.assign(d + q + 2, d + q + 2 + d[q + 1]);
                             break;
+                        }
+                        if (d[q] == 0x15 && q + 2 < n0) {
+                            size_t l = d[q + 1] | ((size_t)d[q + 2] << 8);
+                            if (l < 0x8000 && q + 3 + l <= n0) { name.assign(d + q + 3, d + q + 3 + l); break; }
+                        }
+                        if (d[q] == 0x16 && q + 4 < n0) {
+                            size_t l = d[q + 1] | ((size_t)d[q + 2] << 8) | ((size_t)d[q + 3] << 16) | ((size_t)d[q + 4] << 24);
+                            if (l <= 70000 && q + 5 + l <= n0) { name.assign(d + q + 5, d + q + 5 + l); break; }
                         }
                     }
                 } else {
@@ -114,7 +123,7 @@ struct Strategy {
             // positioned on a value
             if (obj) {
                 bbuf *n = binson_parser_get_name(p);
-                if (n && names.size() < 64) names.push_back(Bytes(n->bptr, n->bptr + n->bsize));
+                if (n && names.size() < 64 && pb.inside(n)) names.push_back(Bytes(n->bptr, n->bptr + n->bsize));
             }
             binson_type t = binson_parser_get_type(p);
             if (t == BINSON_TYPE_OBJECT || t == BINSON_TYPE_ARRAY) {
